@@ -20,7 +20,19 @@ func GenProgram(seed int64) string {
 	sb.WriteString("package gen\n\n")
 	imps := []string{"fmt", "os", "strings", "math/rand", "crypto/rand", "x.y/z", "a.b/c-d"}
 	g.imports = map[string]bool{}
-	if g.r.Intn(3) > 0 {
+	cgo := g.r.Intn(8) == 0
+	if cgo {
+		// a cgo file whose other imports sort before, between and after "C" (digits and upper case sort first)
+		sb.WriteString("import (\n")
+		for _, i := range g.r.Perm(5)[:1+g.r.Intn(4)] {
+			n := []string{"acme", "bee", "cee", "fmt", "os"}[i]
+			fmt.Fprintf(&sb, "\t%s %q\n", n, []string{"9fans.net/go/acme", "Bee.example/b", "D.example/cee", "fmt", "os"}[i])
+			g.imports[n] = true
+		}
+		sb.WriteString(")\n\n")
+		sb.WriteString([]string{"// #include <stdio.h>\n", "/*\n#include <stdlib.h>\n#cgo LDFLAGS: -lm\n*/\n"}[g.r.Intn(2)])
+		sb.WriteString("import \"C\"\n\nvar _c = C.x\n\n")
+	} else if g.r.Intn(3) > 0 {
 		sb.WriteString("import (\n")
 		for _, i := range g.r.Perm(len(imps))[:1+g.r.Intn(4)] {
 			p := imps[i]
@@ -178,6 +190,9 @@ func (g *pgen) tag() string {
 		return " \"k:\\\"v\\\"\""
 	case 2:
 		return " `b:\"2\" a:\"1\"`"
+	case 3:
+		// values may be empty, all of them
+		return []string{" `xml:\"\"`", " `a:\"\" json:\"\"`", " `json:\",omitempty\" db:\"\"`", ""}[g.r.Intn(4)]
 	}
 	return ""
 }
